@@ -3,7 +3,7 @@
       C10/C11 work; imported, not edited) and against the support mappings (Model/Support.v). *)
 From Coq Require Import Reals Lra Psatz Nsatz List Bool Qreals.
 From D3 Require Import Base.Ops Base.Vec Base.RVec Base.RVec2 Spec.Convex Spec.Shapes
-  Model.Support Model.Contain Proofs.ShapesTac Proofs.SupportA Proofs.SupportB Proofs.ContainProofs.
+  Model.Support Model.Contain Proofs.ShapesTac Proofs.SupportA Proofs.SupportB Proofs.ContainProofs Base.RVec3.
 From D3 Require Model.DistPrim.
 Import ListNotations.
 Local Open Scope R_scope.
@@ -38,7 +38,7 @@ Theorem point_in_box_iff_distance_zero (p : V3R) (T : Pose R) (size : V3R) :
 Proof.
   intros HR S0 S1 S2. rewrite (point_in_box_iff p T size HR).
   unfold box_set. rewrite image_rotation_iff by auto.
-  unfold DistPrim.point_to_box. cbv zeta. cbn [fst].
+  unfold DistPrim.point_to_box. cbv zeta. cbn [fst]. rewrite inverse_transform_point_code_eq.
   set (q := inverse_transform_point T p).
   assert (Hp : p = transform_point T q) by (subst q; symmetry; apply transform_inverse_transform; auto).
   clearbody q. destruct q as [q0 q1 q2].
